@@ -69,6 +69,8 @@ type parserState struct {
 	// querySatisfied is true if both path and value of any queries passed to
 	// consumeAny are satisfied.
 	querySatisfied bool
+	// failed is true if the top level value could not be parsed to its end.
+	failed bool
 }
 
 // query holds information about a combination of {"key": "val"} that we're trying
@@ -123,6 +125,11 @@ func Parse(queryType string, raw []byte) (parsed, inspected, firstToken int, que
 
 	qs := queries[queryType]
 	got := p.consumeAny(raw, qs, 0)
+	if p.failed {
+		// Nothing was parsed successfully; the bytes looked at are still
+		// reported through inspected.
+		got = 0
+	}
 	return got, p.ib, p.firstToken, p.querySatisfied
 }
 
@@ -131,6 +138,7 @@ func (p *parserState) reset() {
 	p.currPath = p.currPath[0:0]
 	p.firstToken = TokInvalid
 	p.querySatisfied = false
+	p.failed = false
 }
 
 func (p *parserState) consumeSpace(b []byte) (n int) {
@@ -430,6 +438,13 @@ func (p *parserState) consumeAny(b []byte, qs []query, lvl int) (n int) {
 		p.querySatisfied = true
 	}
 	if rv <= 0 {
+		// The value did not parse. An enclosing array or object must fail as
+		// well: report 0 to it instead of the bytes consumed so far, which it
+		// would mistake for a successfully parsed value.
+		if lvl > 0 {
+			return 0
+		}
+		p.failed = true
 		return n
 	}
 	n += rv
